@@ -1,12 +1,12 @@
 from props import P
 
 CFG = P(
-        harness=["harness/C04.cc"], harness_deps=["harness/C04_jsonref.hh", "harness/C04_r2.hh"],
+        harness=["harness/C04.cc"], harness_deps=["harness/C04_jsonref.hh", "harness/C04_r2.hh", "harness/C04_r3.hh"],
         srcs=["JSON.cc", "Strings.cc", "Filesystem.cc", "Process.cc", "Time.cc", "Encoding.cc"],
         oracle="C04", flags=[],
         deadline={"quick": 900, "thorough": 5400},
         rule="a case is one JSON value tree (built through the public API) crossed with every enumerated SerializeOption set (sections assign/compare/ctors/history/context/ops: one (dst, src) pair or triple, one value against all others, "
-             "one constructed value, one call history, one call in all contexts, one mutation history); every case is non-trivial: "
+             "one constructed value, one call history, one call in all contexts, one mutation history; section rejected: one history of throwing calls and round trips); every case is non-trivial: "
              "it is serialised, parsed back in default mode (and in strict mode / by the RFC 8259 reference when the options are standard), re-serialised, copied and the copy mutated. "
              "Values are distinct by construction (atoms, unranked trees, byte strings and floats are enumerated without repetition).",
         bounds={
@@ -22,15 +22,21 @@ CFG = P(
                      "history: 14 values x all 4 096 ordered option-set pairs, every ordered pair of 154 serialize/parse calls as A;B;A, every ordered triple of a 28-call sub-alphabet, two-generation round trip under all (o1, o2); "
                      "context: the same calls in a catch handler, during unwinding, inside the handler of the library's own parse_error, under 6 errno values; "
                      "ops: every sequence of 1..3 of 30 mutating operations from 6 initial states against a std::vector/std::unordered_map model, final state round-trips and equals its copies; "
-                     "wide: strings of 15..65 536 bytes, lists of 255..65 537 entries, dictionaries of 255..4 096 keys, resize to 65 537 and back, indent_level 1..4096 x 64 option sets",
+                     "wide: strings of 15..65 536 bytes, lists of 255..65 537 entries, dictionaries of 255..4 096 keys, resize to 65 537 and back, indent_level 1..4096 x 64 option sets. "
+                     "Round 3: rejected: 153 rejected texts (every place the parser gives up: inside a string / key / escape / number, after a colon, between elements, mid-comment, mid-literal, nesting depth 1..3 and 300, "
+                     "trailing data, empty input, strict-only rejections) x {default, strict} x 3 entry points + 8 throwing accessor calls = 926 throwing steps; 396 round-trip steps (22 values x 4 option sets x {default, strict where standard} x 3 entry points); "
+                     "every ordered pair (throwing step, round-trip step) as RT; THROW; RT inside the handler (every second pair also in a destructor during unwinding); RT; every ordered pair of rejected texts followed by one of 8 round trips; "
+                     "every throwing step 2, 3 and 64 times in a row followed by a round trip; every history ends with the round trip of a probe value",
             "thorough": "as quick, with trees up to 6 nodes, the two-byte strings crossed with all 64 option sets, 4-byte strings over the boundary alphabet, assignment triples over the whole pool, mutation histories of length 4, "
-                        "a 1 MiB string, a 1 000 000-entry list and a 16 385-key dictionary",
+                        "a 1 MiB string, a 1 000 000-entry list and a 16 385-key dictionary; rejected: round-trip steps under all 64 option sets (4 488 steps), pairs of rejected texts with all six (mode, entry point) variants of the second",
         },
         explanation="E-ENUM over value trees; per (value, option set): parse(serialize) structural identity with int/float kind (floats rel. 1e-5), JSON::operator== on float-free values, "
                     "sorted re-serialisation fixed point, strict-mode acceptance and RFC 8259 reference (R_std, harness/C04_jsonref.hh) agreement for standard option sets, R_ext agreement for "
                     "HEX_INTEGERS/ONE_CHARACTER_TRIVIAL_CONSTANTS text, deep-copy checks; every distinct standard text is replayed through Python json.loads by oracles/C04.py. "
                     "Round 2 (harness/C04_r2.hh): assignment over non-fresh destinations for all ordered pairs/triples, structural equality relation on all pairs and against native types, all constructor overloads and construction routes, "
-                    "two- and three-call histories and calling contexts (results must equal the isolated call), mutation histories against a container model, boundary integers/floats and far-from-usual sizes, three parse entry points",
+                    "two- and three-call histories and calling contexts (results must equal the isolated call), mutation histories against a container model, boundary integers/floats and far-from-usual sizes, three parse entry points. "
+                    "Round 3 (harness/C04_r3.hh): histories in which a call throws (rejected parses in both modes through the three entry points, throwing accessors) around round-trip steps; each round-trip step is judged by the memoryless "
+                    "oracle (parse accepts, structural identity with kinds, sorted re-serialisation fixed point, serialize text unchanged)",
         assumptions=[
             "floats are finite normal doubles (NaN, infinities, denormals are don't-care and not generated); compared to relative 1e-5 = the six significant digits %g keeps",
             "dictionary keys are unique (duplicates cannot be built through the API); dictionary order is never compared positionally (SORT_DICT_KEYS or key lookup)",
@@ -43,6 +49,9 @@ CFG = P(
             "JSON(uint64 above INT64_MAX): only what was stored must round-trip; the two initializer_list dictionary constructors are declared but not defined in JSON.cc and cannot be linked - not exercised",
             "float sweep: doubles whose six-digit decimal rounding is below DBL_MIN (2^-1022 and its neighbours) are skipped - the rounded value is a denormal",
             "call histories: 'in isolation' means the first execution of the call on freshly built objects in the same process; ambient errno is re-poisoned before every call",
+            "section rejected: what a throwing step itself does (whether the text is refused, which exception) is not compared - rejection of non-JSON text is property C05's domain - only counted "
+            "(counters throwing_steps_that_threw_on_this_tree, rejected_texts_refused_by_strict_parse(string)); JSON::serialize has no reachable throw, so there are no throwing serialize steps; "
+            "a StringReader on which parse() threw is not used again",
             "text produced with HEX_ESCAPE_CODES or ESCAPE_CONTROLS_ONLY is only required to round-trip through the default parser (the header calls both non-standard); "
             "it is not shown to strict mode, R_std, R_ext or Python",
             "quick tier: the 65 536 two-byte strings are crossed with 16 option sets (HEX_INTEGERS / ONE_CHARACTER_TRIVIAL_CONSTANTS cannot change how a string or key is rendered); thorough uses all 64",
